@@ -289,4 +289,77 @@ theorem arena_round (alg : Layer τ ρ → ρ) (e : Tree τ) :
   simp [Post]
 
 #print axioms arena_round
+
+/-! ### the three algebras of `ast.rs` -/
+
+/-- `ExprBoxed::to_string` -/
+def Tree.toStr (show_ : τ → String) : Tree τ → String
+  | .term t => show_ t
+  | .not a => "~" ++ a.toStr show_
+  | .and a b => "(" ++ a.toStr show_ ++ " & " ++ b.toStr show_ ++ ")"
+  | .ite a b c => "(" ++ a.toStr show_ ++ " ? " ++ b.toStr show_ ++ " : " ++ c.toStr show_ ++ ")"
+
+/-- the closure passed to `collapse_exprs` by `Arena::to_string` -/
+def strAlg (show_ : τ → String) : Layer τ String → String
+  | .term t => show_ t
+  | .not a => "~" ++ a
+  | .and a b => "(" ++ a ++ " & " ++ b ++ ")"
+  | .ite a b c => "(" ++ a ++ " ? " ++ b ++ " : " ++ c ++ ")"
+
+theorem fold_strAlg (show_ : τ → String) (t : Tree τ) : fold (strAlg show_) t = t.toStr show_ := by
+  induction t with
+  | term x => rfl
+  | not a ih => simp [fold, strAlg, Tree.toStr, ih]
+  | and a b iha ihb => simp [fold, strAlg, Tree.toStr, iha, ihb]
+  | ite a b c iha ihb ihc => simp [fold, strAlg, Tree.toStr, iha, ihb, ihc]
+
+/-- C20: the arena prints identically to the boxed tree it was built from -/
+theorem arena_toString (show_ : τ → String) (e : Tree τ) :
+    (collapseSuffix (strAlg show_) (flatten e.size [] [e]) 0 (fun _ => none)).bind (fun r => r 0) =
+      some (e.toStr show_) := by
+  rw [arena_round, fold_strAlg]
+
+/-- `ExprBoxed::not` after repair D5: cancel a double negation, otherwise wrap -/
+def Tree.mkNot : Tree τ → Tree τ
+  | .not a => a
+  | t => .not t
+
+/-- the closure of `Arena::to_boxed` -/
+def boxAlg : Layer τ (Tree τ) → Tree τ
+  | .term t => .term t
+  | .not a => a.mkNot
+  | .and a b => .and a b
+  | .ite a b c => .ite a b c
+
+/-- direct evaluation over a value type with `neg`, `mul`, (`ite` stands in for the arms the code
+leaves `todo!()`; here it is given a meaning so that the statement is total) -/
+def Tree.value (neg : ρ → ρ) (mul : ρ → ρ → ρ) (sel : ρ → ρ → ρ → ρ) : Tree ρ → ρ
+  | .term t => t
+  | .not a => neg (a.value neg mul sel)
+  | .and a b => mul (a.value neg mul sel) (b.value neg mul sel)
+  | .ite a b c => sel (a.value neg mul sel) (b.value neg mul sel) (c.value neg mul sel)
+
+theorem value_mkNot {neg : ρ → ρ} {mul sel} (hinv : ∀ x, neg (neg x) = x) (t : Tree ρ) :
+    (t.mkNot).value neg mul sel = neg (t.value neg mul sel) := by
+  cases t <;> simp [Tree.mkNot, Tree.value, hinv]
+
+/-- C20: converting back from the arena yields an expression with the same value (negation involutive) -/
+theorem toBoxed_value {neg : ρ → ρ} {mul sel} (hinv : ∀ x, neg (neg x) = x) (t : Tree ρ) :
+    (fold boxAlg t).value neg mul sel = t.value neg mul sel := by
+  induction t with
+  | term x => rfl
+  | not a ih => simp [fold, boxAlg, value_mkNot hinv, Tree.value, ih]
+  | and a b iha ihb => simp [fold, boxAlg, Tree.value, iha, ihb]
+  | ite a b c iha ihb ihc => simp [fold, boxAlg, Tree.value, iha, ihb, ihc]
+
+/-- negative witness for D5: the pinned `ExprBoxed::not` returns a term unchanged -/
+def Tree.mkNotPinned : Tree τ → Tree τ
+  | .term t => .term t
+  | .not a => a
+  | t => .not t
+example : (Tree.mkNotPinned (.term (5 : Int))).value (fun x => -x) (· * ·) (fun a _ _ => a) = 5 := rfl
+example : (Tree.mkNot (.term (5 : Int))).value (fun x => -x) (· * ·) (fun a _ _ => a) = -5 := rfl
+
+#print axioms arena_toString
+#print axioms toBoxed_value
 end A
